@@ -148,6 +148,16 @@ type FuncSpec struct {
 	Props     []string // properties this function's obligations belong to by default
 	Src       string
 	MaxPaths  int
+	Refines   []Refinement
+	refExpanded bool
+}
+
+// Refinement: this function implements an interface method; its obligations are the interface method contract with the
+// abstract predicates replaced by this implementation's definitions (behavioural subtyping).
+type Refinement struct {
+	IfaceMethod string            // pkgshort.Iface.Method
+	Subst       map[string]string // abstract spec function -> concrete spec function
+	Src         string
 }
 
 type SpecFunc struct {
@@ -680,7 +690,7 @@ type rawLine struct {
 }
 
 var topKeywords = map[string]bool{"func": true, "spec": true, "pred": true, "lemma": true, "ifacemethod": true}
-var clauseKeywords = map[string]bool{"requires": true, "ensures": true, "panics_if": true, "panics_iff": true, "nopanic": true,
+var clauseKeywords = map[string]bool{"refines": true, "requires": true, "ensures": true, "panics_if": true, "panics_iff": true, "nopanic": true,
 	"assigns": true, "loop": true, "trusted": true, "inline": true, "fnparam": true, "property": true, "maxpaths": true,
 	"opaque": true, "unfold": true}
 
@@ -906,6 +916,19 @@ func parseClauseInto(fs *FuncSpec, l rawLine) error {
 		case "panics_iff":
 			fs.PanicsIff = append(fs.PanicsIff, c)
 		}
+	case "refines":
+		// refines pkg.Iface.Method with a=b, c=d
+		parts := strings.SplitN(body, " with ", 2)
+		rf := Refinement{IfaceMethod: strings.TrimSpace(parts[0]), Subst: map[string]string{}, Src: l.src}
+		if len(parts) == 2 {
+			for _, kv := range strings.Split(parts[1], ",") {
+				f := strings.SplitN(strings.TrimSpace(kv), "=", 2)
+				if len(f) == 2 {
+					rf.Subst[strings.TrimSpace(f[0])] = strings.TrimSpace(f[1])
+				}
+			}
+		}
+		fs.Refines = append(fs.Refines, rf)
 	case "nopanic":
 		fs.NoPanic = true
 	case "trusted":
@@ -1039,4 +1062,68 @@ func (db *SpecDB) LoadSpecsFromRepo(root string, pkgOfDir map[string]string) err
 		}
 	}
 	return nil
+}
+
+// substCalls renames spec function calls and identifiers in an expression.
+func substExpr(ex Expr, calls map[string]string, idents map[string]string) Expr {
+	r := func(e Expr) Expr {
+		if e == nil {
+			return nil
+		}
+		return substExpr(e, calls, idents)
+	}
+	switch e := ex.(type) {
+	case *EIdent:
+		if n, ok := idents[e.Name]; ok {
+			return &EIdent{Name: n}
+		}
+		return e
+	case *EUnary:
+		return &EUnary{Op: e.Op, X: r(e.X)}
+	case *EBinary:
+		return &EBinary{Op: e.Op, X: r(e.X), Y: r(e.Y)}
+	case *ECond:
+		return &ECond{C: r(e.C), A: r(e.A), B: r(e.B)}
+	case *EField:
+		return &EField{X: r(e.X), Name: e.Name}
+	case *EIndex:
+		return &EIndex{X: r(e.X), I: r(e.I)}
+	case *ESlice:
+		return &ESlice{X: r(e.X), Lo: r(e.Lo), Hi: r(e.Hi)}
+	case *ECall:
+		name := e.Fn
+		if n, ok := calls[name]; ok {
+			name = n
+		} else if i := strings.LastIndex(name, "."); i >= 0 {
+			if n, ok := calls[name[i+1:]]; ok {
+				name = n
+			}
+		}
+		var as []Expr
+		for _, a := range e.Args {
+			as = append(as, r(a))
+		}
+		return &ECall{Fn: name, Args: as}
+	case *EAssert:
+		return &EAssert{X: r(e.X), T: e.T}
+	case *EOld:
+		return &EOld{X: r(e.X)}
+	case *EQuant:
+		id2 := map[string]string{}
+		for k, v := range idents {
+			id2[k] = v
+		}
+		for _, b := range e.Vars {
+			delete(id2, b.Name)
+		}
+		return &EQuant{Forall: e.Forall, Vars: e.Vars, Body: substExpr(e.Body, calls, id2)}
+	case *ELet:
+		id2 := map[string]string{}
+		for k, v := range idents {
+			id2[k] = v
+		}
+		delete(id2, e.Name)
+		return &ELet{Name: e.Name, Val: r(e.Val), Body: substExpr(e.Body, calls, id2)}
+	}
+	return ex
 }
